@@ -12,8 +12,17 @@ open Gotlcp
 
 /-! ### `readFromUntil` over a chunked transport -/
 
-theorem fill_all (n : Nat) : ∀ (cs : List Bytes) (raw : Bytes),
-    (fill n raw cs).1 ++ (fill n raw cs).2.1.flatten = raw ++ cs.flatten := by
+/-- `atLeastReader.Read` as written (with the `r.N > 0 &&` guard) -/
+theorem atLeast_guarded (need got : Nat) (eof : Bool) :
+    atLeast true need got eof = if got < need then (if eof then .short else .more) else .done := by
+  unfold atLeast
+  cases eof <;> simp
+  · by_cases h : got < need
+    · simp [h]
+    · simp [h]
+
+theorem fill_all (g e x : Bool) (n : Nat) : ∀ (cs : List Bytes) (raw : Bytes),
+    (fill g e x n raw cs).1 ++ (fill g e x n raw cs).2.1.flatten = raw ++ cs.flatten := by
   intro cs
   induction cs with
   | nil => intro raw; simp [fill]
@@ -22,10 +31,17 @@ theorem fill_all (n : Nat) : ∀ (cs : List Bytes) (raw : Bytes),
     simp only [fill]
     split
     · rfl
-    · rw [ih]; simp
+    · split
+      · rfl
+      · split
+        · rw [ih]; simp
+        · simp
+        · simp
 
-theorem fill_ok (n : Nat) : ∀ (cs : List Bytes) (raw : Bytes),
-    (fill n raw cs).2.2 = decide (n ≤ (raw ++ cs.flatten).length) := by
+/-- the guarded reader over a transport whose deadline has not passed: success iff the bytes are
+there — whether the end of the stream comes with the last chunk (`e`) or separately -/
+theorem fill_ok (e : Bool) (n : Nat) : ∀ (cs : List Bytes) (raw : Bytes),
+    (fill true e false n raw cs).2.2 = decide (n ≤ (raw ++ cs.flatten).length) := by
   intro cs
   induction cs with
   | nil => intro raw; simp [fill]
@@ -36,10 +52,24 @@ theorem fill_ok (n : Nat) : ∀ (cs : List Bytes) (raw : Bytes),
     · rename_i h
       simp only [List.length_append, List.flatten_cons]
       simp; omega
-    · rw [ih]; simp
+    · rename_i h
+      simp only [Bool.false_eq_true, ↓reduceIte, atLeast_guarded]
+      by_cases h1 : c.length < n - raw.length
+      · simp only [h1, ↓reduceIte]
+        cases he : (e && cs.isEmpty)
+        · simp only [Bool.false_eq_true, ↓reduceIte]
+          rw [ih]; simp
+        · simp only [↓reduceIte]
+          have hc : cs = [] := by
+            have := (Bool.and_eq_true _ _).mp he
+            exact List.isEmpty_iff.mp this.2
+          subst hc
+          simp; omega
+      · simp only [h1, ↓reduceIte]
+        simp; omega
 
-theorem fill_len (n : Nat) : ∀ (cs : List Bytes) (raw : Bytes),
-    (fill n raw cs).2.2 = true → n ≤ (fill n raw cs).1.length := by
+theorem fill_len (e : Bool) (n : Nat) : ∀ (cs : List Bytes) (raw : Bytes),
+    (fill true e false n raw cs).2.2 = true → n ≤ (fill true e false n raw cs).1.length := by
   intro cs
   induction cs with
   | nil => intro raw h; simpa [fill] using h
@@ -49,11 +79,18 @@ theorem fill_len (n : Nat) : ∀ (cs : List Bytes) (raw : Bytes),
     split
     · assumption
     · rename_i hn
-      simp only [hn, ↓reduceIte] at h
-      exact ih _ h
+      simp only [hn, ↓reduceIte, Bool.false_eq_true, atLeast_guarded] at h ⊢
+      by_cases h1 : c.length < n - raw.length
+      · simp only [h1, ↓reduceIte] at h ⊢
+        cases he : (e && cs.isEmpty)
+        · simp only [he, Bool.false_eq_true, ↓reduceIte] at h ⊢
+          exact ih _ h
+        · simp [he] at h
+      · simp only [h1, ↓reduceIte, List.length_append]
+        omega
 
-theorem fill_fail_nil (n : Nat) : ∀ (cs : List Bytes) (raw : Bytes),
-    (fill n raw cs).2.2 = false → (fill n raw cs).2.1 = [] := by
+theorem fill_fail_nil (e : Bool) (n : Nat) : ∀ (cs : List Bytes) (raw : Bytes),
+    (fill true e false n raw cs).2.2 = false → (fill true e false n raw cs).2.1 = [] := by
   intro cs
   induction cs with
   | nil => intro raw _; simp [fill]
@@ -63,8 +100,16 @@ theorem fill_fail_nil (n : Nat) : ∀ (cs : List Bytes) (raw : Bytes),
     split
     · rename_i hn; simp [hn] at h
     · rename_i hn
-      simp only [hn, ↓reduceIte] at h
-      exact ih _ h
+      simp only [hn, ↓reduceIte, Bool.false_eq_true, atLeast_guarded] at h ⊢
+      by_cases h1 : c.length < n - raw.length
+      · simp only [h1, ↓reduceIte] at h ⊢
+        cases he : (e && cs.isEmpty)
+        · simp only [he, Bool.false_eq_true, ↓reduceIte] at h ⊢
+          exact ih _ h
+        · simp only [↓reduceIte]
+          have := (Bool.and_eq_true _ _).mp he
+          exact List.isEmpty_iff.mp this.2
+      · simp [h1] at h
 
 /-- the buffered bytes are a prefix of everything still to come -/
 theorem prefix_take {a b : Bytes} (w : Bytes) (h : a ++ b = w) (n : Nat) (hn : n ≤ a.length) :
@@ -95,33 +140,49 @@ def parseOne (P : Params) (w : Bytes) : FrameRes × Bytes :=
     else if w.length < P.recordHeaderLen + n then (.err .unexpectedEOF, w)
     else (.frame typ ((w.take (P.recordHeaderLen + n)).drop P.recordHeaderLen), w.drop (P.recordHeaderLen + n))
 
-theorem Raw.all_mk (a : Bytes) (b : List Bytes) : (Raw.mk a b).all = a ++ b.flatten := rfl
+theorem Raw.all_mk (r : Raw) (a : Bytes) (b : List Bytes) :
+    ({ r with raw := a, chunks := b } : Raw).all = a ++ b.flatten := rfl
 
-theorem nextFrame_parse (P : Params) (h5 : 5 ≤ P.recordHeaderLen) (r : Raw) :
+/-- framing never touches the transport's flags -/
+theorem nextFrame_flags (P : Params) (r : Raw) :
+    (nextFrame P r).2.expired = r.expired ∧ (nextFrame P r).2.eofWithLast = r.eofWithLast := by
+  unfold nextFrame
+  dsimp only
+  repeat' split
+  all_goals exact ⟨rfl, rfl⟩
+
+/-- with the reader as written (`hg`) and a transport whose read deadline has not passed (`hx`),
+framing is a function of the bytes still to come — however they are chunked and whether the end of
+the stream is reported with the last chunk or after it -/
+theorem nextFrame_parse (P : Params) (h5 : 5 ≤ P.recordHeaderLen) (hg : P.eofShortOnlyWhenShort = true)
+    (r : Raw) (hx : r.expired = false) :
     (nextFrame P r).1 = (parseOne P r.all).1 ∧ (nextFrame P r).2.all = (parseOne P r.all).2 := by
-  have ha1 : (fill P.recordHeaderLen r.raw r.chunks).1 ++
-      (fill P.recordHeaderLen r.raw r.chunks).2.1.flatten = r.all := fill_all P.recordHeaderLen r.chunks r.raw
-  have ho1 : (fill P.recordHeaderLen r.raw r.chunks).2.2 = decide (P.recordHeaderLen ≤ r.all.length) :=
-    fill_ok P.recordHeaderLen r.chunks r.raw
+  have ha1 : (fill true r.eofWithLast false P.recordHeaderLen r.raw r.chunks).1 ++
+      (fill true r.eofWithLast false P.recordHeaderLen r.raw r.chunks).2.1.flatten = r.all :=
+    fill_all true r.eofWithLast false P.recordHeaderLen r.chunks r.raw
+  have ho1 : (fill true r.eofWithLast false P.recordHeaderLen r.raw r.chunks).2.2 = decide (P.recordHeaderLen ≤ r.all.length) :=
+    fill_ok r.eofWithLast P.recordHeaderLen r.chunks r.raw
   unfold nextFrame parseOne
+  simp only [Raw.fill, Raw.failure, hg, hx]
   generalize r.all = w at *
-  simp only []
-  cases hf1 : (fill P.recordHeaderLen r.raw r.chunks).2.2 with
+  try simp only []
+  cases hf1 : (fill true r.eofWithLast false P.recordHeaderLen r.raw r.chunks).2.2 with
   | false =>
-    have hnil := fill_fail_nil _ _ _ hf1
+    have hnil := fill_fail_nil _ _ _ _ hf1
     rw [hf1] at ho1
     have hlt : w.length < P.recordHeaderLen := by
       have := ho1.symm; simp only [decide_eq_false_iff_not] at this; omega
     rw [hnil] at ha1
     simp only [List.flatten_nil, List.append_nil] at ha1
-    simp only [Bool.not_false, ↓reduceIte, hlt, Raw.all_mk, hnil, ha1, List.flatten_nil, List.append_nil]
-    exact ⟨trivial, trivial⟩
+    simp only [Bool.not_false, ↓reduceIte, hlt, Raw.all_mk, hnil, ha1, List.flatten_nil, List.append_nil,
+      Bool.false_eq_true]
+    exact ⟨trivial, by simp [Raw.all]⟩
   | true =>
-    have hl1 := fill_len _ _ _ hf1
+    have hl1 := fill_len _ _ _ _ hf1
     rw [hf1] at ho1
     have hge : ¬ w.length < P.recordHeaderLen := by
       have := ho1.symm; simp only [decide_eq_true_eq] at this; omega
-    have g : ∀ i, i < 5 → (fill P.recordHeaderLen r.raw r.chunks).1.getD i 0 = w.getD i 0 :=
+    have g : ∀ i, i < 5 → (fill true r.eofWithLast false P.recordHeaderLen r.raw r.chunks).1.getD i 0 = w.getD i 0 :=
       fun i hi => prefix_getD w ha1 i (by omega)
     simp only [Bool.not_true, Bool.false_eq_true, ↓reduceIte, hge, g 0 (by omega), g 1 (by omega),
       g 2 (by omega), g 3 (by omega), g 4 (by omega), Raw.all_mk]
@@ -131,25 +192,28 @@ theorem nextFrame_parse (P : Params) (h5 : 5 ≤ P.recordHeaderLen) (r : Raw) :
       · exact ⟨rfl, ha1⟩
       · -- body
         generalize hn : be16 (w.getD 3 0) (w.getD 4 0) = n
-        have ha2 := fill_all (P.recordHeaderLen + n) (fill P.recordHeaderLen r.raw r.chunks).2.1
-          (fill P.recordHeaderLen r.raw r.chunks).1
-        have ho2 := fill_ok (P.recordHeaderLen + n) (fill P.recordHeaderLen r.raw r.chunks).2.1
-          (fill P.recordHeaderLen r.raw r.chunks).1
+        have ha2 := fill_all true r.eofWithLast false (P.recordHeaderLen + n)
+          (fill true r.eofWithLast false P.recordHeaderLen r.raw r.chunks).2.1
+          (fill true r.eofWithLast false P.recordHeaderLen r.raw r.chunks).1
+        have ho2 := fill_ok r.eofWithLast (P.recordHeaderLen + n)
+          (fill true r.eofWithLast false P.recordHeaderLen r.raw r.chunks).2.1
+          (fill true r.eofWithLast false P.recordHeaderLen r.raw r.chunks).1
         rw [ha1] at ha2
         rw [ha1] at ho2
-        cases hf2 : (fill (P.recordHeaderLen + n) (fill P.recordHeaderLen r.raw r.chunks).1
-            (fill P.recordHeaderLen r.raw r.chunks).2.1).2.2 with
+        cases hf2 : (fill true r.eofWithLast false (P.recordHeaderLen + n)
+            (fill true r.eofWithLast false P.recordHeaderLen r.raw r.chunks).1
+            (fill true r.eofWithLast false P.recordHeaderLen r.raw r.chunks).2.1).2.2 with
         | false =>
-          have hnil := fill_fail_nil _ _ _ hf2
+          have hnil := fill_fail_nil _ _ _ _ hf2
           rw [hf2] at ho2
           have hlt : w.length < P.recordHeaderLen + n := by
             have := ho2.symm; simp only [decide_eq_false_iff_not] at this; omega
           rw [hnil] at ha2
           simp only [List.flatten_nil, List.append_nil] at ha2
           simp only [Bool.not_false, ↓reduceIte, hlt, hnil, ha2, List.flatten_nil, List.append_nil]
-          exact ⟨trivial, by simp [Raw.all_mk]⟩
+          exact ⟨trivial, by simp [Raw.all]⟩
         | true =>
-          have hl2 := fill_len _ _ _ hf2
+          have hl2 := fill_len _ _ _ _ hf2
           rw [hf2] at ho2
           have hge2 : ¬ w.length < P.recordHeaderLen + n := by
             have := ho2.symm; simp only [decide_eq_true_eq] at this; omega
@@ -160,31 +224,34 @@ theorem nextFrame_parse (P : Params) (h5 : 5 ≤ P.recordHeaderLen) (r : Raw) :
 
 /-- **segmentation independence of framing**: two transports carrying the same bytes yield the
 same frames and the same final condition -/
-theorem frames_indep (P : Params) (h5 : 5 ≤ P.recordHeaderLen) :
-    ∀ (fuel : Nat) (r1 r2 : Raw), r1.all = r2.all → frames P fuel r1 = frames P fuel r2 := by
+theorem frames_indep (P : Params) (h5 : 5 ≤ P.recordHeaderLen) (hg : P.eofShortOnlyWhenShort = true) :
+    ∀ (fuel : Nat) (r1 r2 : Raw), r1.expired = false → r2.expired = false →
+      r1.all = r2.all → frames P fuel r1 = frames P fuel r2 := by
   intro fuel
   induction fuel with
-  | zero => intro r1 r2 _; rfl
+  | zero => intro r1 r2 _ _ _; rfl
   | succ fuel ih =>
-    intro r1 r2 h
-    obtain ⟨a1, b1⟩ := nextFrame_parse P h5 r1
-    obtain ⟨a2, b2⟩ := nextFrame_parse P h5 r2
+    intro r1 r2 hx1 hx2 h
+    obtain ⟨a1, b1⟩ := nextFrame_parse P h5 hg r1 hx1
+    obtain ⟨a2, b2⟩ := nextFrame_parse P h5 hg r2 hx2
+    have e1 := (nextFrame_flags P r1).1
+    have e2 := (nextFrame_flags P r2).1
     rw [h] at a1 b1
     simp only [frames]
     cases h1 : nextFrame P r1 with
     | mk f1 r1' =>
       cases h2 : nextFrame P r2 with
       | mk f2 r2' =>
-        rw [h1] at a1 b1
-        rw [h2] at a2 b2
-        simp only [] at a1 b1 a2 b2
+        rw [h1] at a1 b1 e1
+        rw [h2] at a2 b2 e2
+        simp only [] at a1 b1 a2 b2 e1 e2
         have hf : f1 = f2 := by rw [a1, a2]
         subst hf
         cases f1 with
         | err e => rfl
         | frame t b =>
           simp only []
-          rw [ih r1' r2' (by rw [b1, b2])]
+          rw [ih r1' r2' (by rw [e1, hx1]) (by rw [e2, hx2]) (by rw [b1, b2])]
 
 /-! ### `Conn.Read` on the stream an honest sender produces -/
 
@@ -194,6 +261,8 @@ structure ParamsOK (P : Params) : Prop where
   alertNeApp : P.typeAlert ≠ P.typeAppData
   appNeCCS : P.typeAppData ≠ P.typeCCS
   two : 2 ≤ P.maxPlaintext
+  /-- `atLeastReader.Read` as written: `if r.N > 0 && err == io.EOF` -/
+  guard : P.eofShortOnlyWhenShort = true
 
 /-- `w` is what an honest peer sent from read sequence number `seq` on: one application-data
 record per element of `ps` (non-empty, within the plaintext limit, accepted by `dec`), then —
@@ -229,17 +298,19 @@ theorem parseOne_nil (P : Params) (h5 : 5 ≤ P.recordHeaderLen) : parseOne P []
 /-- one pass over an application-data record of an honest stream -/
 theorem readOne_app (P : Params) (dec : Dec) (ok : ParamsOK P) (s : Rx) (ta : UInt8)
     (hta : ta.toNat = P.typeAppData) (body w' p : Bytes)
+    (hx : s.io.expired = false)
     (hp : parseOne P s.io.all = (.frame ta body, w')) (hd : dec s.seq ta body = some p)
     (h0 : 0 < p.length) (hm : p.length ≤ P.maxPlaintext) :
     ∃ s1, readOne P dec s = (.ok, s1) ∧ s1.io.all = w' ∧ s1.input = p ∧ s1.seq = s.seq + 1 ∧
-      s1.err = s.err := by
-  obtain ⟨a, b⟩ := nextFrame_parse P (by rw [ok.hdr]; omega) s.io
+      s1.err = s.err ∧ s1.io.expired = false := by
+  obtain ⟨a, b⟩ := nextFrame_parse P (by rw [ok.hdr]; omega) ok.guard s.io hx
+  have hfl := (nextFrame_flags P s.io).1
   rw [hp] at a b
   unfold readOne
   cases hn : nextFrame P s.io with
   | mk f io' =>
-    rw [hn] at a b
-    simp only [] at a b
+    rw [hn] at a b hfl
+    simp only [] at a b hfl
     subst a
     simp only [hd]
     have h1 : ¬ P.maxPlaintext < p.length := by omega
@@ -247,14 +318,15 @@ theorem readOne_app (P : Params) (dec : Dec) (ok : ParamsOK P) (s : Rx) (ta : UI
     have h3 : ¬ P.typeAppData = P.typeCCS := ok.appNeCCS
     have h4 : ¬ p.length = 0 := by omega
     simp only [h1, ↓reduceIte, h2, h3, hta, h4, ne_eq, not_false_eq_true, true_and, gt_iff_lt, h0]
-    exact ⟨_, rfl, b, rfl, rfl, rfl⟩
+    exact ⟨_, rfl, b, rfl, rfl, rfl, by rw [← hx]; exact hfl⟩
 
 /-- one pass over the close-notify alert -/
 theorem readOne_close (P : Params) (dec : Dec) (ok : ParamsOK P) (s : Rx) (tl cn lvl : UInt8)
     (htl : tl.toNat = P.typeAlert) (hcn : cn.toNat = P.alertCloseNotify) (body w' : Bytes)
+    (hx : s.io.expired = false)
     (hp : parseOne P s.io.all = (.frame tl body, w')) (hd : dec s.seq tl body = some [lvl, cn]) :
     ∃ s1, readOne P dec s = (.err .eof, s1) ∧ s1.input = s.input := by
-  obtain ⟨a, b⟩ := nextFrame_parse P (by rw [ok.hdr]; omega) s.io
+  obtain ⟨a, b⟩ := nextFrame_parse P (by rw [ok.hdr]; omega) ok.guard s.io hx
   rw [hp] at a b
   unfold readOne
   cases hn : nextFrame P s.io with
@@ -269,9 +341,10 @@ theorem readOne_close (P : Params) (dec : Dec) (ok : ParamsOK P) (s : Rx) (tl cn
     exact ⟨_, rfl, rfl⟩
 
 /-- one pass at the end of the stream -/
-theorem readOne_end (P : Params) (dec : Dec) (ok : ParamsOK P) (s : Rx) (hw : s.io.all = []) :
+theorem readOne_end (P : Params) (dec : Dec) (ok : ParamsOK P) (s : Rx) (hx : s.io.expired = false)
+    (hw : s.io.all = []) :
     ∃ s1, readOne P dec s = (.err .eof, s1) ∧ s1.input = s.input := by
-  obtain ⟨a, b⟩ := nextFrame_parse P (by rw [ok.hdr]; omega) s.io
+  obtain ⟨a, b⟩ := nextFrame_parse P (by rw [ok.hdr]; omega) ok.guard s.io hx
   rw [hw, parseOne_nil P (by rw [ok.hdr]; omega)] at a b
   unfold readOne
   cases hn : nextFrame P s.io with
@@ -289,13 +362,13 @@ theorem readRecord_sticky (P : Params) (dec : Dec) (fuel : Nat) (s : Rx) (e : Rx
 
 theorem readRecord_app (P : Params) (dec : Dec) (ok : ParamsOK P) (s : Rx) (ta : UInt8)
     (hta : ta.toNat = P.typeAppData) (body w' p : Bytes)
-    (he : s.err = none) (hi : s.input = [])
+    (he : s.err = none) (hi : s.input = []) (hx : s.io.expired = false)
     (hp : parseOne P s.io.all = (.frame ta body, w')) (hd : dec s.seq ta body = some p)
     (h0 : 0 < p.length) (hm : p.length ≤ P.maxPlaintext) :
     ∃ s1, readRecord P dec (recFuel P) s = (none, s1) ∧ s1.io.all = w' ∧ s1.input = p ∧
-      s1.seq = s.seq + 1 ∧ s1.err = none := by
-  obtain ⟨s1, h1, h2, h3, h4, h5⟩ := readOne_app P dec ok s ta hta body w' p hp hd h0 hm
-  refine ⟨s1, ?_, h2, h3, h4, by rw [h5, he]⟩
+      s1.seq = s.seq + 1 ∧ s1.err = none ∧ s1.io.expired = false := by
+  obtain ⟨s1, h1, h2, h3, h4, h5, h6⟩ := readOne_app P dec ok s ta hta body w' p hx hp hd h0 hm
+  refine ⟨s1, ?_, h2, h3, h4, by rw [h5, he], h6⟩
   rw [recFuel_succ]
   simp [readRecord, he, hi, h1]
 
@@ -328,7 +401,8 @@ theorem loopFuel_succ (s : Rx) : loopFuel s = s.io.all.length + 2 := rfl
 
 /-- where an honest connection stands: `D` has been handed to the application so far -/
 def Inv (P : Params) (dec : Dec) (ta tl cn : UInt8) (total : Bytes) (s : Rx) (D : Bytes) : Prop :=
-  (s.err = none ∧ ∃ ps c, Honest P dec ta tl cn s.seq s.io.all ps c ∧ D ++ s.input ++ ps.flatten = total) ∨
+  (s.err = none ∧ s.io.expired = false ∧
+    ∃ ps c, Honest P dec ta tl cn s.seq s.io.all ps c ∧ D ++ s.input ++ ps.flatten = total) ∨
   (s.err = some .eof ∧ s.input = [] ∧ D = total)
 
 theorem raw_getD (r : Raw) (h : 0 < r.raw.length) : r.raw.getD 0 0 = r.all.getD 0 0 := by
@@ -341,7 +415,7 @@ theorem raw_getD (r : Raw) (h : 0 < r.raw.length) : r.raw.getD 0 0 = r.all.getD 
 theorem drainInput_step (P : Params) (dec : Dec) (ok : ParamsOK P) (ta tl cn : UInt8)
     (hta : ta.toNat = P.typeAppData) (htl : tl.toNat = P.typeAlert) (hcn : cn.toNat = P.alertCloseNotify)
     (total : Bytes) (s : Rx) (D : Bytes) (n : Nat) (hn : 1 ≤ n)
-    (he : s.err = none) (hin : s.input ≠ []) (ps : List Bytes) (c : Bool)
+    (he : s.err = none) (hx : s.io.expired = false) (hin : s.input ≠ []) (ps : List Bytes) (c : Bool)
     (hh : Honest P dec ta tl cn s.seq s.io.all ps c) (hD : D ++ s.input ++ ps.flatten = total) :
     Inv P dec ta tl cn total (drainInput P dec s n).2.2 (D ++ (drainInput P dec s n).1) ∧
     (((drainInput P dec s n).2.1 = none ∧ 0 < (drainInput P dec s n).1.length) ∨
@@ -353,7 +427,7 @@ theorem drainInput_step (P : Params) (dec : Dec) (ok : ParamsOK P) (ta tl cn : U
   -- the state after the copy
   have hplain : Inv P dec ta tl cn total { s with input := s.input.drop n } (D ++ s.input.take n) := by
     left
-    refine ⟨he, ps, c, hh, ?_⟩
+    refine ⟨he, hx, ps, c, hh, ?_⟩
     show D ++ s.input.take n ++ s.input.drop n ++ ps.flatten = total
     rw [List.append_assoc D, hsplit]; exact hD
   unfold drainInput
@@ -379,7 +453,7 @@ theorem drainInput_step (P : Params) (dec : Dec) (ok : ParamsOK P) (ta tl cn : U
         rw [this] at hraw; simp at hraw
       | true =>
         obtain ⟨body, w', lvl, hp, hd⟩ := hh
-        obtain ⟨s1, h1, h2⟩ := readOne_close P dec ok { s with input := s.input.drop n } tl cn lvl htl hcn body w' hp hd
+        obtain ⟨s1, h1, h2⟩ := readOne_close P dec ok { s with input := s.input.drop n } tl cn lvl htl hcn body w' hx hp hd
         obtain ⟨s2, r1, r2, r3⟩ := readRecord_eof P dec { s with input := s.input.drop n } s1 he hdrop' h1 h2
         rw [r1]
         simp only []
@@ -403,18 +477,18 @@ theorem connRead_step (P : Params) (dec : Dec) (ok : ParamsOK P) (ta tl cn : UIn
   unfold connRead
   simp only [hn0, ↓reduceIte]
   rw [loopFuel_succ]
-  rcases hinv with ⟨he, ps, c, hh, hD⟩ | ⟨he, hi, hD⟩
+  rcases hinv with ⟨he, hx, ps, c, hh, hD⟩ | ⟨he, hi, hD⟩
   · by_cases hin : s.input = []
     · -- `input` is empty: read the next record
       cases ps with
       | cons p ps' =>
         obtain ⟨body, w', hp, hd, h0, hm, hrest⟩ := hh
-        obtain ⟨s1, r1, r2, r3, r4, r5⟩ := readRecord_app P dec ok s ta hta body w' p he hin hp hd h0 hm
+        obtain ⟨s1, r1, r2, r3, r4, r5, r6⟩ := readRecord_app P dec ok s ta hta body w' p he hin hx hp hd h0 hm
         have hne : s1.input ≠ [] := by
           rw [r3]; intro h; rw [h] at h0; simp at h0
         rw [fillInput_one P dec _ s s1 hin r1 hne]
         simp only []
-        apply drainInput_step P dec ok ta tl cn hta htl hcn total s1 D n hn r5 hne ps' c
+        apply drainInput_step P dec ok ta tl cn hta htl hcn total s1 D n hn r5 r6 hne ps' c
         · rw [r4, r2]; exact hrest
         · rw [r3, ← hD, hin]; simp
       | nil =>
@@ -422,11 +496,11 @@ theorem connRead_step (P : Params) (dec : Dec) (ok : ParamsOK P) (ta tl cn : UIn
         have hfin : ∃ s2, readRecord P dec (recFuel P) s = (some .eof, s2) ∧ s2.input = [] ∧ s2.err = some .eof := by
           cases c with
           | false =>
-            obtain ⟨s1, h1, h2⟩ := readOne_end P dec ok s hh
+            obtain ⟨s1, h1, h2⟩ := readOne_end P dec ok s hx hh
             exact readRecord_eof P dec s s1 he hin h1 h2
           | true =>
             obtain ⟨body, w', lvl, hp, hd⟩ := hh
-            obtain ⟨s1, h1, h2⟩ := readOne_close P dec ok s tl cn lvl htl hcn body w' hp hd
+            obtain ⟨s1, h1, h2⟩ := readOne_close P dec ok s tl cn lvl htl hcn body w' hx hp hd
             exact readRecord_eof P dec s s1 he hin h1 h2
         obtain ⟨s2, r1, r2, r3⟩ := hfin
         rw [fillInput_err P dec _ s s2 .eof hin r1]
@@ -434,7 +508,7 @@ theorem connRead_step (P : Params) (dec : Dec) (ok : ParamsOK P) (ta tl cn : UIn
         exact ⟨Or.inr ⟨r3, r2, hD'⟩, Or.inr ⟨by trivial, hD'⟩⟩
     · rw [fillInput_ready P dec _ s hin]
       simp only []
-      exact drainInput_step P dec ok ta tl cn hta htl hcn total s D n hn he hin ps c hh hD
+      exact drainInput_step P dec ok ta tl cn hta htl hcn total s D n hn he hx hin ps c hh hD
   · -- end-of-stream was already reported: it stays reported
     have hr := readRecord_sticky P dec (P.maxUselessRecords + 1) s .eof he
     rw [← recFuel_succ] at hr
@@ -477,7 +551,7 @@ theorem reads_honest (P : Params) (dec : Dec) (ok : ParamsOK P) (ta tl cn : UInt
     · intro hex
       rw [hdel]
       -- once everything is delivered nothing more can come: use the invariant at the end
-      rcases i1 with ⟨_, ps, c, _, hD⟩ | ⟨_, _, hD⟩
+      rcases i1 with ⟨_, _, ps, c, _, hD⟩ | ⟨_, _, hD⟩
       · -- still active at the end: then no read reported eof in the tail, so the head did
         obtain ⟨o, ho, heo⟩ := hex
         simp only [reads, List.mem_cons] at ho
